@@ -161,7 +161,7 @@ def rule_MO1(rep, prog, q, ex):
 def rule_OD2(rep, prog, q):
     rid = rep.rule("C05-OD2", "slow synchronous paths: every return of _dispatch_sync_f_slow / _dispatch_async_and_wait_f_slow (other than the global-queue "
                    "inline case) is preceded by __DISPATCH_WAIT_FOR_QUEUE__; the wait is preceded by the push; the remote invoker runs the callout and "
-                   "clears dsc_func before signalling", floor=4)
+                   "clears dsc_func before signalling", floor=6)
     for name in ("_dispatch_sync_f_slow", "_dispatch_async_and_wait_f_slow"):
         fn = prog.fn(name)
         rep.saw(fn)
@@ -172,6 +172,27 @@ def rule_OD2(rep, prog, q):
         rep.require(rid, not exits, fn.file + ":" + str(fn.d.get("line")), name, "sync-slow-returns-without-wait:%s" % name,
                     "%s can return without having waited for the queue (path %s)" % (name, exits[0][3] if exits else None),
                     sample={"fn": name, "paths": len(res)})
+    # after the wait, the caller runs its item itself only if nobody ran it remotely: the test is on dsc_func (the field the remote invoker clears), on every
+    # way from the wait to an invocation - an item run by the thread the bottom queue is bound to is otherwise run a second time (on a freed apply descriptor)
+    for name in ("_dispatch_sync_f_slow", "_dispatch_async_and_wait_f_slow"):
+        fn = prog.fn(name)
+        waits_ = calls_named(fn, "__DISPATCH_WAIT_FOR_QUEUE__")
+        inv = [c for c in fn.all_insts() if c.op == "call" and c.callee and ("invoke_and_complete" in c.callee or c.callee in ("_dispatch_sync_function_invoke", "_dispatch_client_callout"))]
+        tests = []
+        for t in fn.all_insts():
+            if t.op == "icmp" and t.d["pred"] in ("eq", "ne") and t.ops[1][0] == "n":
+                l = fn.inst(t.ops[0])
+                if l is not None and l.op == "load" and "dsc_func" in prog.fields(l):
+                    tests.append(t)
+        for w in waits_:
+            bad = []
+            for kind, inst, cx, path in paths.walk(fn, w, lambda i: i in inv):
+                if kind == "hit" and not any(cx.truth.get(t.id) == (t.d["pred"] == "ne") for t in tests):
+                    bad.append(path)
+            rep.require(rid, not bad and bool(inv), w.loc, name, "invoke-after-wait-without-dsc_func-test:%s" % name,
+                        "%s runs the work item itself after the wait on a path that did not find dsc_func non-NULL (path %s): when the item was already run by the "
+                        "thread a bottom queue is bound to (dispatch_sync / dispatch_apply onto a queue targeting the main queue from another thread) it runs a second "
+                        "time" % (name, bad[0] if bad else None), sample={"fn": name, "tests": len(tests)})
     fn = prog.fn("__DISPATCH_WAIT_FOR_QUEUE__")
     rep.saw(fn)
     pushes = icalls_slot(prog, fn, "dq_push")
@@ -288,6 +309,15 @@ def run(rep, tier="quick", srcdir=None, only=None):
     if want("C02-SB5"):
         from . import C02
         C02.rule_barrier_flag(rep, prog, q)
+    if want("C02-TR7"):
+        # ... and a queue is unlocked only by the thread that took the lock: a resume / waiter push that barrier-completes a queue another thread is
+        # running on lets the next item start before the running one's writes are complete (shared with C02)
+        from . import C02
+        C02.rule_TR7(rep, prog, q)
+    if want("C09-HDR3"):
+        # "... or after dispatch_once returns": clients compile the inline fast path of dispatch/once.h into their own code (shared with C09)
+        from . import C09
+        C09.rule_HDR(rep, srcdir)
     if want("C03-MP7"):
         C03.rule_MP7(rep, prog, q)
 
